@@ -28,7 +28,6 @@ def run(ctx):
     ctx.assumptions += [
         "guard: a callback does not synchronously call its own unsubscribe, nor a write method of the object it is subscribed to (self-deadlock on the execution / update-order mutex by construction; OnUpdateOnce uses `go unsubscribe()` for that reason)",
         "an unsubscribe closure is only called after the OnUpdate call that produced it has returned",
-        "guard (finding reactive-set-decode-silent, C13_refuted_set_decode_live): Set.Decode is only called on a set nobody has subscribed to; on a live set it changes the contents without notifying (directed harness case, reported as KNOWN-FINDING)",
         "Go mutexes are modelled as fair-agnostic: the theorems hold for every schedule, no liveness claim is made",
     ]
 
